@@ -1250,3 +1250,38 @@ variant('t-rr-responder-setup-separate-statement', ['C01'], RB,
         "        self._register_stream(stream_id, RequestResponseResponder(self, response_future)).setup()",
         "        responder = RequestResponseResponder(self, response_future)\n        self._register_stream(stream_id, responder)\n        responder.setup()",
         kind='twin')
+# ---- receive dispatch (C01.e, shared into C14, C15, C16)
+variant('b-dispatch-swap-fnf-metadata-push', ['C01'], RB,
+        "            RequestFireAndForgetFrame: self.handle_fire_and_forget,\n            MetadataPushFrame: self.handle_metadata_push,",
+        "            RequestFireAndForgetFrame: self.handle_metadata_push,\n            MetadataPushFrame: self.handle_fire_and_forget,",
+        ('C01.e', 'dispatch / RequestFireAndForgetFrame'))
+variant('b-dispatch-lease-row-dropped', ['C14'], RB, "            LeaseFrame: self.handle_lease,\n", "",
+        ('C01.e', 'dispatch / LeaseFrame'))
+variant('b-dispatch-keepalive-row-dropped', ['C15'], RB, "            KeepAliveFrame: self.handle_keep_alive,\n", "",
+        ('C01.e', 'dispatch / KeepAliveFrame'))
+variant('b-dispatch-setup-row-to-resume', ['C16'], RB, "            SetupFrame: self.handle_setup,",
+        "            SetupFrame: self.handle_resume,", ('C16.d', 'dispatch / SetupFrame'))
+variant('b-last-fragment-bypasses-cache', ['C01'], RB,
+        "        if is_fragmentable_frame(frame):\n            complete_frame",
+        "        if is_fragmentable_frame(frame) and frame.flags_follows:\n            complete_frame",
+        ('C01.e', 'routing of PayloadFrame'))
+variant('b-raw-fragment-dispatched', ['C01'], RB,
+        "        elif self._stream_control.handle_stream(complete_frame):",
+        "        elif self._stream_control.handle_stream(frame):", ('C01.e', 'routing of PayloadFrame'))
+variant('b-lookup-by-base-class', ['C01', 'C14', 'C15'], RB,
+        "async_frame_handler_by_type.get(type(frame), async_noop)",
+        "async_frame_handler_by_type.get(frame.__class__.__mro__[1], async_noop)", ('C01.e', '_handle_frame_by_type'))
+variant('b-fnf-handler-gets-data-only', ['C01'], RB,
+        "        await self._handler.request_fire_and_forget(payload_from_frame(frame))",
+        "        await self._handler.request_fire_and_forget(Payload(frame.data))",
+        ('C01.e', 'dispatch / RequestFireAndForgetFrame'))
+variant('b-requests-only-on-stream-zero', ['C01'], RB,
+        "        if (complete_frame.stream_id == CONNECTION_STREAM_ID or\n                isinstance(complete_frame, initiate_request_frame_types)):",
+        "        if complete_frame.stream_id == CONNECTION_STREAM_ID:", ('C01.e', 'routing of RequestStreamFrame'))
+variant('t-lookup-inline-await', ['C01', 'C14', 'C15', 'C16'], RB,
+        "        frame_handler = async_frame_handler_by_type.get(type(frame), async_noop)\n        await frame_handler(frame)",
+        "        await async_frame_handler_by_type.get(type(frame), async_noop)(frame)", kind='twin')
+variant('t-routing-nested-if', ['C01', 'C14', 'C15', 'C16'], RB,
+        "        if (complete_frame.stream_id == CONNECTION_STREAM_ID or\n                isinstance(complete_frame, initiate_request_frame_types)):\n            await self._handle_frame_by_type(complete_frame, async_frame_handler_by_type)\n        elif",
+        "        if complete_frame.stream_id == CONNECTION_STREAM_ID:\n            await self._handle_frame_by_type(complete_frame, async_frame_handler_by_type)\n        elif isinstance(complete_frame, initiate_request_frame_types):\n            await self._handle_frame_by_type(complete_frame, async_frame_handler_by_type)\n        elif",
+        kind='twin')
